@@ -105,6 +105,8 @@ def _drive(args):
                 p = bc[b].get('field_processor')
                 if p in ('ICC', 'DE43', 'PAN', 'PAN-PREFIX') and r.random() < 0.7:
                     m['DE' + b] = isoc.value_for(r, bc[b], alpha)
+                elif p is None and r.random() < 0.15:
+                    m['DE' + b] = isoc.value_for(r, bc[b], alpha)
             if r.random() < 0.8:
                 m.update(isoc.rpds(r, alpha, 5))
             out.append(isocheck.roundtrip_trace(tid, m, bc, codec, bool(tid & 1), 'derived entries'))
@@ -123,6 +125,9 @@ def run(rep, wd, tier, seed):
         jobs.append((seed, gen, codec, 'singles', 0, 0))
         for k in range(core.NCPU):
             jobs.append((seed, gen, codec, 'pairs', k, None if tier == 'thorough' else 1600))
+        jobs.append((seed, ('pkgshuf', 0), codec, 'derived', 0, 60))
+        jobs.append((seed, ('pkgshuf', 1), codec, 'derived', 60, 120))
+        jobs.append((seed, ('pkgshuf', 2), codec, 'derived', 120, 180))
         for cfgspec in (('pkg',), gen):
             jobs.append((seed, cfgspec, codec, 'over', 0, 0))
             jobs.append((seed, cfgspec, codec, 'padding', 0, 0))
